@@ -814,19 +814,21 @@ func checkLuaExec(le *luaEnv) {
 					}
 				}
 			} else {
-				// ExecMulti: SCRIPT LOAD on every node it was given, all succeeded -> a load-SHA1 object has its SHA from here on
-				nLoads, allOK, last := 0, true, 0
+				// ExecMulti: SCRIPT LOAD on every node it was given, all succeeded -> a load-SHA1 object has its SHA once the
+				// call has stored it, which it does (under the object's lock) before it issues its EVALSHA batch. The reply
+				// of the last SCRIPT LOAD is too early a moment: an Exec that holds the lock for its own SCRIPT LOAD makes
+				// the ExecMulti wait with storing (seen by `vp check` #3 in variant race, seed 1015841030).
+				nLoads, allOK, stored := 0, true, 0
 				for _, d := range dos {
 					if d.Name == "SCRIPT LOAD" {
 						nLoads++
 						allOK = allOK && d.ok()
-						if d.EndSeq > last {
-							last = d.EndSeq
-						}
+					} else if d.evalFamily() && stored == 0 {
+						stored = d.Seq
 					}
 				}
-				if sp.Load && nLoads > 0 && allOK {
-					loads[n].known = append(loads[n].known, last)
+				if sp.Load && nLoads > 0 && allOK && stored > 0 {
+					loads[n].known = append(loads[n].known, stored)
 				}
 				if nLoads > 1 {
 					out.probe("execmulti-loaded-script-on-several-nodes")
